@@ -65,7 +65,11 @@ def run_tree(args):
 
     spec, tier = args
     part = core.new_part()
-    top = core.new_scratch()
+    scratch = top = core.new_scratch()
+    if len(repr(spec)) % 2:
+        # the data set lives under a directory whose own name looks like a time-stamped subdirectory
+        top = os.path.join(scratch, "2014-03-09T12-00-00")
+        os.makedirs(top)
     case = {"spec": spec}
 
     def bad(key, detail, **extra):
@@ -201,7 +205,7 @@ def run_tree(args):
         if not part["samples"]:
             part["samples"].append({"spec": spec, "windows": len(wins), "files": sorted(T.scan(top).keys())[:6]})
     finally:
-        core.rm(top)
+        core.rm(scratch)
     return part
 
 
